@@ -24,6 +24,7 @@ theorem Stage3.basicT {pt : PT} (h : Stage3 pt) : BasicT pt := by
     | const => exact BasicT.const hb
     | func => exact BasicT.func hb
     | table => exact BasicT.table hb
+    | point => exact BasicT.point hb
     | atomicMulti _ => exact BasicT.atomicMulti hb
   | seq _ ih => exact BasicT.seq ih
   | rep _ ih => exact BasicT.rep ih
